@@ -71,6 +71,15 @@ def contracts():
             req.append("isinstance(args, dict)")
         cs.append(Contract(target="parserfns:" + name, prop="C05", mode="value", params=params,
                            requires=req, raises=[], result="str", loops=LOOPS.get(name, {})))
+    # the e operator of #expr: its two loops run at most 400 times (bounded time, not merely termination: the
+    # exponent comes from the page text) -- `y <= 400` where the counting loop starts, `y >= -400` as an invariant of
+    # the zero-stripping loop, whose variant -y then bounds the iterations
+    cs.append(Contract(target="parserfns:binary_e_fn", prop="C05", mode="value", params={"x": "int", "y": "int"},
+                       raises=["OverflowError", "ValueError"],      # math.pow range errors: caught by expr_fn, in-band
+                       result="opq",
+                       asserts={"for i in range(y)": ["y <= 400"]},
+                       loops={"for i in range(y)": {"invariant": ["y <= 400"]},
+                              "while y < 0": {"invariant": ["y >= -400", "y <= 0"], "variant": "0 - y"}}))
     cs.append(Contract(target="core:detect_expand_template_loop", prop="C05", mode="value",
                        params={"stack": "strlist"}, raises=[], result="bool"))
     cs.append(Contract(target="parserfns:call_parser_function", prop="C05", mode="value",
